@@ -651,11 +651,14 @@ func runC16(withErrors bool) func(ch chooser.Chooser, st *Stats) *Outcome {
 		}
 		if dirtyGets > 0 {
 			st.Inc("probe:pool_returned_used_object", int64(dirtyGets))
+			st.Inc("fault:pool_handed_out_a_used_object", int64(dirtyGets))
 		}
+		st.Inc("fault:pool_dropped_object_on_put", int64(poolDrops))
 		if res.Switches > 0 {
 			st.Inc("probe:context_switch_between_scanner_reads", 1)
 		}
 		st.Inc("sched:threads_detached", int64(res.Detached))
+		st.Inc("fault:preemptive_context_switch_at_a_yield_point", int64(res.Switches))
 		if v := schedViolation(res); v != nil {
 			out.Violation = v
 			return out
@@ -687,14 +690,22 @@ func runC16(withErrors bool) func(ch chooser.Chooser, st *Stats) *Outcome {
 
 // runSched runs the bodies under the scheduler, counting pool hits.
 func runSched(ch chooser.Chooser, cfg sched.Config, bodies []func(int), dirtyGets *int) *sched.Result {
+	poolDrops = 0
 	sched.PoolHookFunc = func(get bool, n, choice int) {
 		if get && choice > 0 && choice <= n {
 			*dirtyGets++
+		}
+		if !get && choice == 0 {
+			poolDrops++
 		}
 	}
 	defer func() { sched.PoolHookFunc = nil }()
 	return sched.Run(ch, cfg, bodies)
 }
+
+// poolDrops counts the Puts of the last run whose object the simulated pool
+// dropped (scheduler goroutine only).
+var poolDrops int
 
 // schedViolation maps scheduler-level failures to violations.
 func schedViolation(res *sched.Result) *Violation {
